@@ -59,8 +59,9 @@ MANIFEST_ENTRY = {
         "the hand-written kind classification (cross-checked every run by rendering marked templates with sentinel "
         "strings); that a Jinja filter chain / autoescape flag means the function the model names (escape channel); "
         "lxml/libxml2 as reference XML processor; model tokenizer does not check ']]>' in character data, DOCTYPE, "
-        "namespace binding or non-ASCII name classes. Open findings: start with a UTC offset beyond +-14:00 is "
-        "written as it is (not an xs:dateTime); a start after 'now' gives a negative timeShiftBufferDepth."),
+        "namespace binding or non-ASCII name classes. Open findings: a start with a UTC offset beyond +-14:00 is "
+        "written as it is (not an xs:dateTime); single-period streams whose files reuse a track id across content "
+        "types, or two text files with one track id, get duplicate AdaptationSet ids."),
     "technique": "Lean 4 proof (lexer state machine, inertness by induction; decide +kernel over a generated table) "
                  "+ model/implementation correspondence + rule-based exploration of the real application",
 }
@@ -79,7 +80,7 @@ ASSUMPTIONS = [
     "PARTIAL: structural MPD rules (required attributes per MPD@type, id uniqueness, no empty AdaptationSet, URL-template identifiers, lexical validity of the typed attributes of whole documents) are decided by exploration of the real application, not by proof",
     "'attributes required for its MPD@type' is read as the attributes whose presence ISO/IEC 23009-1 Table 3 ties to the type: profiles and minBufferTime always, availabilityStartTime and publishTime for dynamic, mediaPresentationDuration or a duration on every Period for static. The type-independent clause (mediaPresentationDuration when neither minimumUpdatePeriod nor the last Period@duration is present) is not part of the property; dynamic manifests with mup<=0 and manifest_ef.mpd do omit all three.",
     "stream layouts: track ids are distinct across content types (the video AdaptationSet is always id 1) and no two text files share a track id - what the multi-period tables enforce with a unique (period, track id) constraint; single-period streams outside this are ledger D25a/D25b (replayed every run). Audio files may share track ids and mix codec families.",
-    "explicit start instants are <= now and carry a UTC offset of at most +-14:00 (ledger D18-offset-beyond-14h, D19-start-after-now are replayed every run); clockDrift small",
+    "explicit start instants are <= now and carry a UTC offset of at most +-14:00 (ledger D18-offset-beyond-14h is replayed every run; a start after now is answered 404 since 5b4a682); clockDrift small",
     "hostile strings are drawn from XML-legal characters (no C0 controls other than tab): & < > \" ' ]]> markup fragments, URL and Jinja metacharacters, non-ASCII, long",
     "Host headers: whatever a WSGI environ can carry (latin-1); Werkzeug 3.1 replaces a syntactically invalid Host by an empty host name",
     "the value of an injected string is compared with what the document yields only where the template writes the string itself (Title, MPD@id, Patch@mpdId, Period@id, Representation@id); inside URLs (Location, BaseURL, media, PatchLocation, UTCTiming) the URL-encoded form depends on Werkzeug and only structure and well-formedness are checked",
